@@ -2514,7 +2514,7 @@ static EbErrorType verify_settings(
     EbErrorType return_error = EB_ErrorNone;
     EbSvtAv1EncConfiguration *config = &scs_ptr->static_config;
     unsigned int channel_number = config->channel_id;
-    if (config->enc_mode > MAX_ENC_PRESET) {
+    if (config->enc_mode > MAX_ENC_PRESET || config->enc_mode < 0) {
         SVT_LOG("Error instance %u: EncoderMode must be in the range of [0-%d]\n", channel_number + 1, MAX_ENC_PRESET);
         return_error = EB_ErrorBadParameter;
     }
@@ -2694,7 +2694,7 @@ static EbErrorType verify_settings(
         SVT_LOG("Error Instance %u: Log2Tile rows/cols must be [0 - 6] \n", channel_number + 1);
         return_error = EB_ErrorBadParameter;
     }
-    if ((1u << config->tile_rows) * (1u << config->tile_columns) > 128 || config->tile_columns > 4) {
+    else if ((1u << config->tile_rows) * (1u << config->tile_columns) > 128 || config->tile_columns > 4) {
         SVT_LOG("Error Instance %u: MaxTiles is 128 and MaxTileCols is 16 (Annex A.3) \n", channel_number + 1);
         return_error = EB_ErrorBadParameter;
     }
@@ -3011,6 +3011,57 @@ static EbErrorType verify_settings(
             }
         }
     }
+
+    if (config->unpin > 1) {
+        SVT_LOG("Error instance %u: Invalid unpin flag [0 - 1], your input: %d\n", channel_number + 1, config->unpin);
+        return_error = EB_ErrorBadParameter;
+    }
+    if (config->enable_tpl_la > 1) {
+        SVT_LOG("Error instance %u: Invalid enable_tpl_la flag [0 - 1], your input: %d\n", channel_number + 1, config->enable_tpl_la);
+        return_error = EB_ErrorBadParameter;
+    }
+    if (config->film_grain_denoise_strength > 50) {
+        SVT_LOG("Error instance %u: Invalid film_grain_denoise_strength [0 - 50], your input: %d\n", channel_number + 1, config->film_grain_denoise_strength);
+        return_error = EB_ErrorBadParameter;
+    }
+    if (config->tf_level < -1 || config->tf_level > 3) {
+        SVT_LOG("Error instance %u: Invalid tf_level [0 - 3, -1 for default], your input: %d\n", channel_number + 1, config->tf_level);
+        return_error = EB_ErrorBadParameter;
+    }
+    if (config->enable_overlays > 1) {
+        SVT_LOG("Error instance %u: Invalid enable_overlays flag [0 - 1], your input: %d\n", channel_number + 1, config->enable_overlays);
+        return_error = EB_ErrorBadParameter;
+    }
+    if (config->recode_loop > 3) {
+        SVT_LOG("Error instance %u: Invalid recode_loop [0 - 3], your input: %d\n", channel_number + 1, config->recode_loop);
+        return_error = EB_ErrorBadParameter;
+    }
+    if (config->vbr_bias_pct > 100) {
+        SVT_LOG("Error instance %u: Invalid vbr_bias_pct [0 - 100], your input: %d\n", channel_number + 1, config->vbr_bias_pct);
+        return_error = EB_ErrorBadParameter;
+    }
+    if (config->under_shoot_pct > 100) {
+        SVT_LOG("Error instance %u: Invalid under_shoot_pct [0 - 100], your input: %d\n", channel_number + 1, config->under_shoot_pct);
+        return_error = EB_ErrorBadParameter;
+    }
+    if (config->over_shoot_pct > 1000) {
+        SVT_LOG("Error instance %u: Invalid over_shoot_pct [0 - 1000], your input: %d\n", channel_number + 1, config->over_shoot_pct);
+        return_error = EB_ErrorBadParameter;
+    }
+#if FTR_ENABLE_FIXED_QINDEX_OFFSETS
+    if (config->key_frame_qindex_offset < -256 || config->key_frame_qindex_offset > 255 ||
+        config->key_frame_chroma_qindex_offset < -256 || config->key_frame_chroma_qindex_offset > 255) {
+        SVT_LOG("Error instance %u: Invalid key frame qindex offset [-256 - 255]\n", channel_number + 1);
+        return_error = EB_ErrorBadParameter;
+    }
+    for (int32_t layer = 0; config->use_fixed_qindex_offsets == 1 && layer < EB_MAX_TEMPORAL_LAYERS; layer++) {
+        if (config->qindex_offsets[layer] < -256 || config->qindex_offsets[layer] > 255 ||
+            config->chroma_qindex_offsets[layer] < -256 || config->chroma_qindex_offsets[layer] > 255) {
+            SVT_LOG("Error instance %u: Invalid qindex offset for temporal layer %d [-256 - 255]\n", channel_number + 1, layer);
+            return_error = EB_ErrorBadParameter;
+        }
+    }
+#endif
 
     if (config->superres_mode > 2) {
         SVT_LOG("Error instance %u: invalid superres-mode %d, should be in the range [%d - %d], "
